@@ -405,7 +405,7 @@ def core_canon(mods, maxpay):
     def evs(ms):
         out = []
         for x in ms:
-            out.append("%d/%s/%s/%d" % (x["p"], x["from"], x["topic"], 1 if x["sys"] else 0))
+            out.append("%d/%s/%s/%d/%s" % (x["p"], x["from"], x["topic"], 1 if x["sys"] else 0, x["ud"]))
         return ";".join(out) if out else "_"
 
     def canon(st):
@@ -418,7 +418,11 @@ def core_canon(mods, maxpay):
         else:
             parts = ["ctx:%s,%d,%d,%d" % (ctx["st"], nreg, S["run"], 1 if ctx["quit"] else 0)]
         for m in mods:
-            parts.append("%s:%s:%d" % (m, mod[m]["st"], len(mod[m]["pipe"])))
+            x = mod[m]
+            if x["st"] in ("none", "zombie"):
+                parts.append("%s:%s:0:0:0:0:0" % (m, x["st"]))
+            else:
+                parts.append("%s:%s:%d:%d:%d:%d:%d" % (m, x["st"], len(x["pipe"]), len(x["bq"]), len(x["stash"]), len(x["hs"]), x["blen"]))
         pay = S["pay"]
         pay = pay if isinstance(pay, list) else [_fn(pay)[k] for k in sorted(_fn(pay))]
         parts.append("pay:" + "".join({"unused": "u", "live": "l", "freed": "f"}[x["st"]] for x in pay))
@@ -427,7 +431,8 @@ def core_canon(mods, maxpay):
         parts.append("d%d" % depth)
         if stack and stack[0]["k"] == "cb":
             f = stack[0]
-            parts.append("cb:%s:%s:%s" % (f["m"], f["a"], evs(f["ev"])))
+            kind = f["a"] + (str(f["h"]) if f["a"] == "evt" else "")
+            parts.append("cb:%s:%s:%s" % (f["m"], kind, evs(f["ev"])))
         else:
             parts.append("-")
         return str(S["ret"]), "|".join(parts)
@@ -461,6 +466,9 @@ CORE_CFGS = {
     "sysmq": (["A", "B"], {"VP_CAP": "2", "VP_CTXPERSIST": "1", "VP_SETUP": "loop2"}),
     "sysm": (["A", "B"], {"VP_CAP": "2", "VP_CTXPERSIST": "1", "VP_SETUP": "loop2"}),
     "sysc": (["A", "B"], {"VP_CAP": "3", "VP_CTXPERSIST": "1"}),
+    "batch": (["A", "B"], {"VP_CAP": "3", "VP_CTXPERSIST": "1", "VP_SETUP": "loop2", "VP_MAXPAY": "2"}),
+    "stash": (["A", "B"], {"VP_CAP": "2", "VP_CTXPERSIST": "1", "VP_SETUP": "loop2", "VP_MAXPAY": "2"}),
+    "become": (["A", "B"], {"VP_CAP": "2", "VP_CTXPERSIST": "1", "VP_SETUP": "loop2", "VP_MAXPAY": "1"}),
 }
 
 
@@ -522,3 +530,21 @@ def c08(prop, tier, seed):
 def c19(prop, tier, seed):
     return core_check(prop, tier, seed, ["sysmq", "sysc"], ["sysm", "sysc", "sysmq"],
                       "Focus: subscriptions to the system topics; notifications are ordinary mailbox messages (sender, topic, system flag compared).")
+
+
+@check("C13")
+def c13(prop, tier, seed):
+    return core_check(prop, tier, seed, ["batch"], ["batch"],
+                      "Focus: low/normal/high priority subscriptions, batch sizes, which arrival triggers a handler invocation and with which events.", Dq=7, Dt=9)
+
+
+@check("C16")
+def c16(prop, tier, seed):
+    return core_check(prop, tier, seed, ["stash"], ["stash", "become"],
+                      "Focus: stash inside handlers, unstash(n) for n = 1, 2, SIZE_MAX from top level and handlers, stop discards.", Dq=7, Dt=9)
+
+
+@check("C17")
+def c17(prop, tier, seed):
+    return core_check(prop, tier, seed, ["become"], ["become", "stash"],
+                      "Focus: handler stack changed from outside and inside handlers; which handler receives each invocation.", Dq=7, Dt=9)
